@@ -1524,6 +1524,38 @@ Proof.
   nra.
 Qed.
 
+
+(* sin(arctan(zm / d)) = zm / sqrt(d^2 + zm^2) *)
+Lemma halfheight_closed (zm d rs rd : R) : 0 < d ->
+  cone_factory_halfheight sqrt (zm / d) rs rd = zm / sqrt (d * d + zm * zm) * (rs + rd).
+Proof.
+  intros Hd. unfold cone_factory_halfheight. numR. f_equal.
+  assert (Hpos : 0 < d * d + zm * zm) by nra.
+  assert (E : 1 + zm / d * (zm / d) = (d * d + zm * zm) / (d * d)) by (field; lra).
+  rewrite E, sqrt_div_alt by nra. rewrite sqrt_square by lra.
+  assert (Hs : 0 < sqrt (d * d + zm * zm)) by (apply sqrt_lt_R0; exact Hpos).
+  field. split; lra.
+Qed.
+
+(* cone_beam_geometry, 3-d: what the chosen detector height does cover: every point whose distance from the source along
+   the central ray is at least sqrt((rs - rho)^2 + zm^2) projects inside vertically (v = (rs + rd) z / (rs + xn)) *)
+Lemma cone_vertical_partial (zm d z xn rs rd : R) :
+  0 < d -> Rabs z <= zm -> sqrt (d * d + zm * zm) <= rs + xn -> 0 <= rs + rd ->
+  Rabs ((rs + rd) * z / (rs + xn)) <= cone_factory_halfheight sqrt (zm / d) rs rd.
+Proof.
+  intros Hd Hz Hx Hr. rewrite (halfheight_closed zm d rs rd Hd).
+  assert (Hzm : 0 <= zm) by (pose proof (Rabs_pos z); lra).
+  assert (Hpos : 0 < d * d + zm * zm) by nra.
+  assert (Hs : 0 < sqrt (d * d + zm * zm)) by (apply sqrt_lt_R0; exact Hpos).
+  set (L := sqrt (d * d + zm * zm)) in *. assert (Hp : 0 < rs + xn) by lra.
+  unfold Rdiv. rewrite !Rabs_mult, (Rabs_pos_eq (rs + rd)) by lra. rewrite (Rabs_pos_eq (/ (rs + xn))) by (left; apply Rinv_0_lt_compat; lra).
+  assert (H1 : Rabs z * / (rs + xn) <= zm * / L).
+  { apply Rle_trans with (zm * / (rs + xn)).
+    - apply Rmult_le_compat_r; [left; apply Rinv_0_lt_compat; lra | exact Hz].
+    - apply Rmult_le_compat_l; [exact Hzm|]. apply Rinv_le_contravar; lra. }
+  nra.
+Qed.
+
 (* ============ the hand-written model uses the formulas REGENERATED from the source ============ *)
 (* Gen/GeometryFormulas.v is re-emitted from odl/tomo/util/utility.py and odl/tomo/geometry/detector.py on every
    run; a changed entry of a matrix literal or of a surface formula breaks these proofs. *)
